@@ -91,7 +91,8 @@ VARIANTS = (('linear_hash_seq', 1), ('linear_hash', 1), ('linear_hash_avx512', 2
 def run_lh(mod, variant, two, size, pt):
     S = perm_summaries(mod, pt)
     name = mod.find('PoseidonGoldilocks::%s(Goldilocks::Element*, Goldilocks::Element*, unsigned long)' % variant)
-    eff = harness.run_routine(mod, name, S, values={'size': size},
+    from .. import rawhelper
+    eff = harness.run_routine(mod, name, S, values={'size': size}, opts={'raw_helper': rawhelper.decide},
                               extents={'input': 8 * size * two, 'output': 8 * 4 * two})
     return eff, name
 
@@ -124,6 +125,8 @@ def check_length(rep, mod, cfg, variant, two, size):
     if rd != want:
         bad.append('reads %d input cells, declared length is %d (extra %s, missing %s)' % (
             len(rd), size * two, sorted(rd - want, key=str)[:3], sorted(want - rd, key=str)[:3]))
+    if not bad and harness.helper_refutation(eff):
+        bad.append(harness.helper_refutation(eff))
     if bad:
         rep.refute('sponge:' + tag, 'sponge-bounded', site, '; '.join(bad[:3]))
     else:
@@ -182,6 +185,8 @@ def run(rep, tier, seed):
             if two == 2 and cfg != 'avx512':
                 continue
             inductive(rep, smod, cfg, variant, two)
+    from .. import rules
+    rules.rule_fpround(rep, r'^PoseidonGoldilocks::linear_hash')
     rep.floor('length x variant configurations', len([o for o in rep.obl if o['rule'] == 'sponge-bounded']), 5 * (N + 1))
     rep.floor('inductive cases established', len([o for o in rep.obl if o['rule'] == 'sponge-inductive' and o['status'] == 'discharged']), 15)   # 50 on the pinned tree; one recognised variant (10 cases) is enough for the tier not to be vacuous
     rep.cov['lengths'] = '0..%d (every residue mod 8, both sides of the <=4 threshold)' % N
